@@ -137,6 +137,17 @@ CHECKS = {
    note=("Trusted: loopback UDP delivery being synchronous (a late datagram aborts the run as an infrastructure error), the (id, offset) byte pattern segmentation, the verif accessors "
          "VerifBufLen / VerifTransports, TLC. Socket failure is injected by closing the transport's net.UDPConn underneath it."),
    design_ref="DESIGN.md section 6 C15"),
+ "C16": dict(
+   technique="TLA+ spec ThriftSize.tla (wire size of MetricTag / MetricValue / Metric / MetricBatch / message as a function of shape for Compact and Binary; the compact writer's field-id stack as a state machine over consecutive, possibly abandoned writes) checked by TLC; real encoder / size calculator / decoder results for enumerated shapes validated by TLC against ThriftSizeTrace.tla",
+   text=("TLC checks on the writer state machine that the size of a structure written through one reused protocol object does not depend on what was written - or abandoned half-way - before it (two "
+         "weakenings of the field-id stack discipline are caught), and that the maximal-placeholder size bounds the size for every choice of varint length classes in both protocols. The size function "
+         "itself is bound to the code by conformance: for every enumerated shape (all varint classes of every integer field, string lengths 0..1024 of random bytes, tag lists around the 14/15 "
+         "list-header switch, batches of 0..16 (500) metrics, all sequence-id lengths) a concrete value is encoded through one reused real encoder, measured through one reused TCalcTransport "
+         "protocol, sent through the generated client and decoded; TLC requires encoder length = calculator count = the model's function of the shape, also right after an abandoned write, "
+         "round-trip equality, and that the size the real reporter charges at allocation equals the kind-maximal size of the shape (incl. the two bucket tags)."),
+   note=("Trusted: the harness's construction of a concrete value for a shape (own varint-length functions), its equality predicate for the round trip (floats by bit pattern, nil vs empty tag list), TLC. "
+         "The byte content of the encoding is observed (decode with the repository's own readers), not predicted by the model - stated in DESIGN.md section 7."),
+   design_ref="DESIGN.md section 6 C16"),
  "C17": dict(
    technique="TLA+ spec PromReporter.tla (Prometheus registry rule, the reporter's three by-id caches with the shared timers map, vectors keyed by label values, Observe(upper) x samples) checked by TLC; first-use / record histories on the real reporter and under real scopes, gathered from a fresh Registry, validated by TLC against PromReporterTrace.tla",
    text=("TLC checks for all sequences of <= 4 (5) first uses over 2 names x 4 kinds x 2 key sets x timer flavour x callback flavour that a rejected registration is reported to the callback once, "
